@@ -30,6 +30,15 @@ Host(s)  == CASE s = "SA" -> "A" [] s = "SB" -> "B" [] OTHER -> "C"
 SoundOf(t) == CASE t = "A" -> "SA" [] t = "B" -> "SB" [] OTHER -> "SC"
 ChildOf(t) == CASE t = "A" -> "B" [] t = "B" -> "C" [] OTHER -> "none"
 
+NoLast == [c |-> "none", d |-> 0, wk |-> "none", wt |-> 0, prog |-> 0]
+Ancestors(t) == CASE t = "A" -> {} [] t = "B" -> {"A"} [] OTHER -> {"A", "B"}
+\* "Pausing a track fades it out and then freezes ...; resuming, immediately or at a start time, continues": the state a
+\* command leads to must be reached once its fade (and delay) has had the time - counted in callbacks during which nothing
+\* above the track was frozen or fading - plus the depth of the chain (pick-up of freshly built tracks) and one of slack
+Deadline(c) == (IF c.c = "resume_at" THEN c.wt ELSE 0) + c.d + 5
+Goal(c) == IF c.c = "pause" THEN "Paused" ELSE "Playing"
+Judged(c) == c.c \in {"pause", "resume"} \/ (c.c = "resume_at" /\ c.wk = "delayed")
+
 PInit(persist, n, depth) ==
   [ n |-> n, persist |-> persist,              \* persist[t]: built with persist_until_sounds_finish
     k |-> 0,
@@ -40,6 +49,8 @@ PInit(persist, n, depth) ==
     finished |-> {},                           \* sounds known to be Stopped
     stopReq |-> {},
     nx |-> [s \in Sounds |-> 0],               \* next source frame each sound should play (Unknown when it cannot be inferred)
+    \* the command in force on each track (NoLast: none / several in one window) and the callbacks it has had to take effect
+    last |-> [t \in Tracks |-> NoLast],
     slack |-> [s \in Sounds |-> FALSE] ]       \* a resume at a start time may begin its fade-in one callback after the
                                                \* start time ("within one callback"): the sound may be one callback further
 
@@ -81,19 +92,27 @@ Check(m, e) ==
               THEN "removed_at_next_callback"
          \* a removed track's sounds are silent
          ELSE IF \E s \in Sounds : Host(s) \in (m.gone \cup SeenGone(e)) /\ ~e.zero[s] /\ e.first[s] # -4 THEN "removed_track_is_silent"
+         ELSE IF \E t \in Tracks : /\ Judged(m.last[t]) /\ t \notin m.touched /\ t \notin (m.gone \cup SeenGone(e)) /\ e.st[t] # "gone"
+                                    /\ m.last[t].prog >= Deadline(m.last[t]) /\ e.st[t] # Goal(m.last[t])
+              THEN "command_takes_effect_after_its_fade"
          ELSE ""
     [] e.a = "panic" -> "no_panic"
     [] e.a = "hang" -> "returns_promptly"
     [] OTHER -> ""
 
 Upd(m, e) ==
-  CASE e.a = "cmd" -> [m EXCEPT !.touched = @ \cup {e.t}]
+  CASE e.a = "cmd" -> [m EXCEPT !.touched = @ \cup {e.t},
+                                !.last[e.t] = IF e.t \in m.touched THEN NoLast      \* two commands in one window: order left open
+                                              ELSE [c |-> e.c, d |-> e.d, wk |-> e.wk, wt |-> e.wt, prog |-> 0]]
     [] e.a = "drop" -> [m EXCEPT !.dropped = @ \cup {e.t}]
     [] e.a = "stop" -> [m EXCEPT !.stopReq = @ \cup {e.s}]
     [] e.a = "cb" ->
          LET fin == m.finished \cup {s \in Sounds : e.sst[s] = "Stopped"}
              gone == m.gone \cup SeenGone(e) IN
          [m EXCEPT !.k = @ + 1, !.touched = {},
+                   !.last = [t \in Tracks |->
+                               IF \A u \in Ancestors(t) : m.st[u] = "Playing" /\ e.st[u] \in {"Playing", "gone"} /\ u \notin m.touched
+                               THEN [m.last[t] EXCEPT !.prog = @ + 1] ELSE m.last[t]],
                    \* once the handle is gone only a settled pause is known to last
                    !.st = [t \in Tracks |-> IF e.st[t] # "gone" THEN e.st[t]
                                              ELSE IF m.st[t] = "Paused" /\ t \notin m.touched THEN "Paused" ELSE "unknown"],
